@@ -49,7 +49,10 @@ def _hub_graphs(tier):
     only through a hub of bidirected edges, which is where the ctf-factor / IDENTIFY interplay recurses."""
     from ..graphs import enum_O as eo
 
-    return [g for g in eo(4, max_edges=5) if len(g.bi) >= 3]
+    gs = [g for g in eo(4, max_edges=5) if len(g.bi) >= 3]
+    if tier == "quick":
+        gs = [g for g in gs if len(g.di) >= 2]  # quick: the 300 of them that also have two directed edges
+    return gs
 
 
 def explore_hub(res: Res, g: G, tier, seed):
@@ -86,8 +89,8 @@ def describe(tier):
         + ", disjoint from S), domain graph = target graph with edges into Z removed plus T_s -> s; orderings: the graph's own "
         "and the reversed-tie alternative; ctfTRu events of up to two items (up to 1 subscript each"
         + ("" if tier == "thorough" else ", non-reflexive")
-        + "); ctfTR: one outcome and one condition item; every base value assignment; plus ctfTRu on the 551 four-node graphs "
-        "with >=3 bidirected and <=5 edges, transport-marked sets of <=2 nodes, single all-'-' items with <=1 subscript",
+        + "); ctfTR: one outcome and one condition item; every base value assignment; plus ctfTRu on the four-node graphs "
+        "with >=3 bidirected and <=5 edges (quick: the 300 with two directed edges; thorough: all 551), transport-marked sets of <=2 nodes, single all-'-' items with <=1 subscript",
         "rule": "state = (target graph, domain, event/query); transition = one unconditional_cft / conditional_cft call whose "
         "expression is evaluated on the multi-domain functional witness family and compared with the target probability",
         "assumptions": [
